@@ -11,11 +11,12 @@ N(v, c) == [k |-> "N", v |-> v, c |-> c]
 E(e, c) == [k |-> "E", v |-> e, c |-> c]
 C(c)    == [k |-> "C", v |-> 0, c |-> c]
 SubCtx == {"sub"}
+MaxK == 6       \* largest number of sources of an instance (the typed families go up to CombineLatest5 / Zip6 / MergeWith5)
 
 \* live: subscribed and neither ended by itself nor released by the operator
 St0 == [live |-> {}, ended |-> {}, torn |-> {}, subs |-> {}, done |-> FALSE,
-        last |-> [s \in 1..3 |-> <<>>],   \* CombineLatest / SampleWhen: latest notification per source (<<>> = none)
-        q |-> [s \in 1..3 |-> <<>>],      \* Zip: queue per source
+        last |-> [s \in 1..MaxK |-> <<>>],   \* CombineLatest / SampleWhen: latest notification per source (<<>> = none)
+        q |-> [s \in 1..MaxK |-> <<>>],      \* Zip: queue per source
         won |-> 0, flag |-> FALSE, buf |-> <<>>]
 
 R(s, out) == [st |-> s, out |-> out]
@@ -39,7 +40,7 @@ MStepF(mm, ss, s, n) ==
     [] mm.op = "Zip" ->
          CASE n.k = "N" -> LET q2 == [ss.q EXCEPT ![s] = Append(@, v)] IN
                            IF \A x \in SrcsOf(mm) : q2[x] # <<>>
-                             THEN LET q3 == [x \in 1..3 |-> IF x \in SrcsOf(mm) THEN Tail(q2[x]) ELSE <<>>]
+                             THEN LET q3 == [x \in 1..MaxK |-> IF x \in SrcsOf(mm) THEN Tail(q2[x]) ELSE <<>>]
                                       tup == N([x \in SrcsOf(mm) |-> q2[x][1]], c)
                                   \* completes once a finished source's queue is drained
                                   IN IF \E x \in SrcsOf(mm) : x \in ss.ended /\ q3[x] = <<>>
